@@ -38,6 +38,8 @@ EXPLANATION = (
     "exploration of notGenerated/printSchemaFilenames and of SCOPEPrint->TYPEprint_descriptions/TYPEselect_print->TYPEPrint "
     "for each of the 13 kinds x {plain, renaming} cells a TYPE declaration can produce (kinds derived from the grammar "
     "expparse.y); the two tables must agree. (R4) same dictionary, same filter, unconditional entity arm, all schemas. "
+    "(R1b) the un-suffixed per-schema names are the ones used for a single-schema file: under the single-schema hypothesis no "
+    "deferral statement of multpass.c is reachable (three-valued evaluation with path-refined mark sets), so SCHEMAprint is called with suffix 0. "
     "(R5) CMake plumbing of directory/library name; directory name must depend on the schema on every path. (R6) the "
     "repetition a list is built from is white-space separated for names of any length. "
     "Not decided: collisions of names after case folding, the contents of the generated files, "
@@ -750,6 +752,8 @@ def run(prog, res, tier):
     if gen is not None and scan is not None:
         r1_r2_names(prog, res, gen, scan, wfn)
         r6_separators(prog, res, scan)
+    import singlepass
+    singlepass.check(prog, res, "R1.single_schema_single_pass", "exp2cxx/multpass.c", "exp2cxx")
     r3_tables(prog, res)
     r4_iteration(prog, res)
     r5_cmake(prog, res)
